@@ -6,6 +6,14 @@ CHECKS = {
    technique="TLA+ operator RangeGet!Allowed: TLC enumerates all bounded (size, Range form) vectors, replayed into ParseGetObjectRange and real GETs; every observation validated by TLC (RangeTrace)",
    text="TLC enumerates the complete bounded input space of the range semantics (sizes 0..4 x 13 structured Range forms x numbers 0..5 and an overflowing number) and checks well-formedness lemmas of the definition; each vector is executed against the exported range parser and as a real HTTP GET against a gateway built from /repo; every observation (status, Content-Range, Content-Length, where the body bytes sit in the object) plus a few hundred/thousand random large-object cases is validated by TLC as a trace against the same operator.",
    note="Bounded sizes and number classes; body position inferred by byte search (distinct bytes for small sizes); real clock, ext4, one gateway process."),
+ "C05": dict(design="5/C05",
+   technique="TLA+ PosixKey (implementation steps of PUT/GET/DELETE on one key) refines LinKey (atomic register); TLC enumerates interleavings, replayed through blocking hooks into the real gateway; TLC judges every recorded history (LinKeyTrace)",
+   text="TLC model-checks the implementation-shaped spec PosixKey (one action per filesystem step between two hook sites) against the atomic-register spec LinKey: the repaired design satisfies NoTornRead / NoSpuriousMissing / linearizability for every interleaving of 2-3 requests; the model of the code as it is generates every interleaving of each request pair (sampled for triples) as a schedule. Each schedule is forced on the real gateway (one or two processes on the same storage, both temp-file strategies, both metadata stores) by blocking hooks; the model's predicted outcome is compared with the real one (conformance of code to model) and the real client-visible history plus a read after quiescence is judged by TLC against LinKey. Free-running concurrent rounds are judged the same way.",
+   note="Bounded to 2-3 concurrent requests on one key per history (5 in free-running rounds); steps are the verifhook sites; process-level interleaving on ext4; real clock."),
+ "C11": dict(design="5/C11",
+   technique="TLA+ PosixKey + Crash action checked by TLC; every hook site of every operation type is a real SIGKILL point of a real gateway process; TLC judges (pre-state, killed op, post-restart state) against LinKey",
+   text="TLC checks that the repaired design of PosixKey with a Crash action keeps the key in its previous or its new complete state; for the real code a dry run records the hook-site sequence of each operation type (PutObject new/overwrite/with tags, CopyObject, CompleteMultipartUpload, UploadPart new/overwrite, DeleteObject) and one real gateway process is SIGKILLed at each site (and after the acknowledgement), restarted, and the key read back (body, length, ETag, metadata, tags / ListParts); TLC validates each crash history against LinKey (killed request = may or may not have taken effect; acknowledged = must be in effect). Leftovers must be invisible in listings and later PUT/GET/DELETE/DeleteBucket must work.",
+   note="Process kill only (no power loss / fsync), ext4; kill points are the hook sites (code between two sites is one step); versioned operations not yet covered."),
 }
 NOT_YET = {}
 def main():
